@@ -461,7 +461,24 @@ def make_cases(rng, tier, wd):
         open(os.path.join(cdir, "in.xml"), "w").write(xml)
         cases.append({"id": k, "dir": cdir})
         metas.append((ss, src))
+    # ENGINE-REUSE family: every 6th case once more through one XSLTEngineImpl driven by its own interface that has just run - and
+    # reset() after - a transformation aborted while result elements with namespace declarations were open (poison.xsl); the result
+    # is held to the same obligations as the XalanTransformer run of the same case
+    poison = os.path.join(wd, "poison.xsl")
+    open(poison, "w").write(POISON)
+    base = len(cases)
+    for k in range(0, base, 6):
+        cases.append({"id": len(cases), "dir": cases[k]["dir"], "engine": True, "poison": poison, "base": k})
+        metas.append(metas[k])
     return cases, metas, nsys
+
+
+POISON = ('<xsl:stylesheet version="1.0" xmlns:xsl="http://www.w3.org/1999/XSL/Transform">'
+          '<xsl:template match="/"><o xmlns:p="urn:u" xmlns:q="urn:v" xmlns:s="urn:s" xmlns:ns0="urn:w" xmlns="urn:v">'
+          '<p:i xmlns:q="urn:u" xmlns:p="urn:v" xmlns:ns1="urn:u" xmlns:z="urn:w" xmlns=""><q:j xmlns:r="urn:w" xmlns:ns2="urn:v" xmlns="urn:u" p:x="1">'
+          '<xsl:element name="ns3:e" namespace="urn:w"><xsl:attribute name="q:a" namespace="urn:w">v</xsl:attribute>'
+          '<k xmlns:p="urn:w" xmlns:q="urn:w" xmlns:s="urn:u"><xsl:message terminate="yes">stop</xsl:message></k>'
+          '</xsl:element></q:j></p:i></o></xsl:template></xsl:stylesheet>')
 
 
 def run_cases(res, cases, metas, wd):
@@ -505,6 +522,23 @@ def event_of(c, ss, src, dn):
 
 def triage(res, events, rejects, cases, known):
     """exact: known only if the transcribed algorithm emits exactly the recorded tree and its KD classes explain every fault"""
+    if not rejects:
+        return
+    # an engine-reuse run is judged against its XalanTransformer twin: where the twin is rejected too (a known deviation of the fix-up
+    # algorithm - the reused engine only invents other prefix names, its counter is not reset) the twin's verdict stands for both;
+    # where the twin is accepted, the reuse is what broke the result
+    rejected_cases = {events[rj["line"]]["sample"] for rj in rejects}
+    keep = []
+    for rj in rejects:
+        c = cases[events[rj["line"]]["sample"]]
+        if c.get("engine"):
+            if c["base"] not in rejected_cases:
+                ev = events[rj["line"]]
+                res.violation("XSLTEngineImpl reused after an aborted transformation + reset(): %s (the same case on a fresh XalanTransformer is accepted)" % rj["msg"][:300],
+                              [dict(ev, xsl=open(os.path.join(c["dir"], "main.xsl")).read(), xml=open(os.path.join(c["dir"], "in.xml")).read(), poison=POISON)])
+            continue
+        keep.append(rj)
+    rejects = keep
     if not rejects:
         return
     evs = [dict(events[rj["line"]], mode="triage") for rj in rejects]
